@@ -15,11 +15,13 @@ use std::task::{Context, Poll, Waker};
 use std::time::{Duration, Instant};
 
 #[derive(Clone, Debug, PartialEq)]
-pub enum COp { Poll { fresh: bool }, Set(u64), Get, Drop, Up }
+pub enum COp { Poll { fresh: bool }, Set(u64), Get, Drop, Up,
+               /// free-running rounds only (no ledger): `Subscriber::next_now`, `SharedObservable::set_if_not_eq`
+               NextNow, Sne(u64) }
 impl COp {
     fn text(&self) -> String {
         match self { COp::Poll { fresh: false } => "poll".into(), COp::Poll { fresh: true } => "pollf".into(), COp::Set(v) => format!("set:{v}"),
-            COp::Get => "get".into(), COp::Drop => "drop".into(), COp::Up => "up".into() }
+            COp::Get => "get".into(), COp::Drop => "drop".into(), COp::Up => "up".into(), COp::NextNow => "nextnow".into(), COp::Sne(v) => format!("sne:{v}") }
     }
 }
 
@@ -107,6 +109,8 @@ fn worker(sh: Arc<Shared>, t: usize, op: COp, mut h: Handle, forced: bool, round
             (COp::Get, Handle::Clone(o)) => o.get().to_string(),
             (COp::Drop, h2) => { let o = std::mem::replace(h2, Handle::None); drop(o); "-".into() }
             (COp::Up, Handle::Weak(w)) => match w.upgrade() { Some(o) => { upgraded = Some(o); "some".into() } None => "none".into() },
+            (COp::NextNow, Handle::Sub(s, _, _)) => s.next_now().to_string(),
+            (COp::Sne(v), Handle::Clone(o)) => fmt_opt(o.set_if_not_eq(*v)),
             _ => unreachable!(),
         };
         results.push(res.clone());
@@ -132,7 +136,8 @@ fn setup(p: &Program) -> Setup {
     for op in &p.ops {
         handles.push(match op {
             COp::Poll { fresh } => { let (f, w) = flag_waker(); n_subs += 1; Handle::Sub(if *fresh { root.subscribe_reset() } else { root.subscribe() }, f, w) }
-            COp::Set(_) | COp::Get | COp::Drop => { n_clones += 1; Handle::Clone(root.clone()) }
+            COp::NextNow => { let (f, w) = flag_waker(); n_subs += 1; Handle::Sub(root.subscribe(), f, w) }
+            COp::Set(_) | COp::Get | COp::Drop | COp::Sne(_) => { n_clones += 1; Handle::Clone(root.clone()) }
             COp::Up => Handle::Weak(root.downgrade()),
         });
     }
@@ -193,7 +198,7 @@ fn point_name(p: PausePoint) -> &'static str {
 }
 
 /// final observations and the implementation-side oracles (C02 lost wakeup by re-poll, C03 closed iff no owner, C04 set chain)
-fn finish(sink: &mut Sink, p: &Program, joined: Vec<(Handle, Vec<String>, Option<SharedObservable<u64>>)>, mut st: Setup, forced: bool) {
+fn finish(sink: &mut Sink, p: &Program, joined: Vec<(Handle, Vec<String>, Option<SharedObservable<u64>>)>, mut st: Setup, emit: bool) {
     let (_mf, mw) = flag_waker();
     let mres = poll_once(&mut st.monitor, &mw);
     let closed = mres == "End";
@@ -201,6 +206,7 @@ fn finish(sink: &mut Sink, p: &Program, joined: Vec<(Handle, Vec<String>, Option
     let mut woken = vec![];
     let mut prevs: Vec<u64> = vec![];
     let mut written: Vec<u64> = vec![];
+    let mut unwoken_pending: Vec<usize> = vec![];
     let value = st.monitor.get();
     for (t, (h, results, up)) in joined.into_iter().enumerate() {
         if up.is_some() { owners += 1; }
@@ -210,6 +216,7 @@ fn finish(sink: &mut Sink, p: &Program, joined: Vec<(Handle, Vec<String>, Option
                 if was_woken { woken.push(t as u64); }
                 // C02: a task whose last poll was Pending and that was not woken must have nothing to receive
                 if results.last().map(|r| r == "Pending").unwrap_or(false) && !was_woken {
+                    unwoken_pending.push(t);
                     let again = poll_once(&mut s, &w);
                     if again != "Pending" {
                         sink.oracle_fail("C02", &format!("thread {t}: its last poll answered Pending, its waker was never woken, yet a further poll answers {again} (lost wakeup)"));
@@ -219,6 +226,25 @@ fn finish(sink: &mut Sink, p: &Program, joined: Vec<(Handle, Vec<String>, Option
                 let last = s.get();
                 if last != value { sink.oracle_fail("C04", &format!("thread {t}: subscriber reads {last}, the final value is {value}")); }
             }
+            (COp::NextNow, Handle::Sub(mut s, _f, w)) => {
+                // C04: the value next_now returned and the version it marked as observed belong together: a subscriber
+                // that has not been handed the final value gets it on its next poll
+                let seen: u64 = results.first().and_then(|r| r.parse().ok()).unwrap_or(u64::MAX);
+                let again = poll_once(&mut s, &w);
+                if again == "Pending" && seen != value {
+                    sink.oracle_fail("C04", &format!("thread {t}: next_now returned {seen}, the final value is {value}, and the subscriber's next poll is Pending: the update was marked observed without being seen"));
+                }
+                if again.starts_with("Ready") && again != format!("Ready({value})") {
+                    sink.oracle_fail("C04", &format!("thread {t}: after next_now the poll answers {again}, the final value is {value}"));
+                }
+            }
+            (COp::Sne(v), Handle::Clone(_)) => {
+                owners += 1;
+                if let Some(r) = results.first() { if let Some(x) = r.strip_prefix("some(").and_then(|x| x.strip_suffix(")")).and_then(|x| x.parse::<u64>().ok()) {
+                    if x == *v { sink.oracle_fail("C04", &format!("thread {t}: set_if_not_eq({v}) replaced the equal value {x} (comparison and store are not one step)")); }
+                    written.push(*v); prevs.push(x);
+                } }
+            }
             (COp::Set(v), Handle::Clone(_)) => { owners += 1; written.push(*v); if let Some(r) = results.first() { if let Ok(x) = r.parse() { prevs.push(x); } } }
             (COp::Get, Handle::Clone(_)) => { owners += 1; }
             (COp::Drop, _) => {}
@@ -226,6 +252,10 @@ fn finish(sink: &mut Sink, p: &Program, joined: Vec<(Handle, Vec<String>, Option
             _ => {}
         }
     }
+    // C02: when the last owner has gone, every subscriber whose poll answered Pending has been woken
+    if owners == 0 { for t in unwoken_pending {
+        sink.oracle_fail("C02", &format!("thread {t}: its last poll answered Pending, every owner has been dropped since, and its waker was never woken"));
+    } }
     if closed != (owners == 0) {
         sink.oracle_fail("C03", &format!("at quiescence the stream is {} while {owners} owner(s) exist", if closed { "ended" } else { "open" }));
     }
@@ -235,7 +265,7 @@ fn finish(sink: &mut Sink, p: &Program, joined: Vec<(Handle, Vec<String>, Option
     if lhs != rhs && !written.is_empty() {
         sink.oracle_fail("C04", &format!("set chain broken: returned previous values {prevs:?} + final {value} vs initial {} + written {written:?}", p.init));
     }
-    if forced { sink.line("cfinal", &format!("value={value} closed={} woken={}", closed as u8, fmt_list(&woken))); }
+    if emit { sink.line("cfinal", &format!("value={value} closed={} woken={}", closed as u8, fmt_list(&woken))); }
 }
 
 static TIMEOUTS: std::sync::atomic::AtomicUsize = std::sync::atomic::AtomicUsize::new(0);
@@ -309,7 +339,8 @@ fn run_forced(sink: &mut Sink, id: &str, p: &Program, atomic_drop: bool, sched: 
     { let mut d = sh.m.lock().unwrap(); for t in 0..n { d.tokens[t] += 1000; } sh.cv.notify_all(); }
     let joined: Vec<_> = joins.into_iter().map(|j| j.join().unwrap()).collect();
     *CURRENT.lock().unwrap() = None;
-    if !timed_out { finish(sink, p, joined, st, true); }
+    // the quiescent-state oracles hold whatever the interleaving was, also when the schedule could not be followed
+    finish(sink, p, joined, st, !timed_out);
     sink.nontrivial();
 }
 
@@ -318,11 +349,17 @@ fn run_free(sink: &mut Sink, id: &str, p: &Program) {
     let mut st = setup(p);
     let sh = Arc::new(Shared { m: Mutex::new(Dir { reports: VecDeque::new(), tokens: vec![] }), cv: Condvar::new() });
     let handles: Vec<Handle> = std::mem::take(&mut st.handles);
-    let barrier = Arc::new(std::sync::Barrier::new(handles.len()));
+    // spin barrier: the calls start within a few instructions of each other
+    let nthreads = handles.len();
+    let barrier = Arc::new(std::sync::atomic::AtomicUsize::new(0));
     let mut joins = vec![];
     for (t, h) in handles.into_iter().enumerate() {
         let (sh2, op, b) = (sh.clone(), p.ops[t].clone(), barrier.clone());
-        joins.push(std::thread::spawn(move || { b.wait(); worker(sh2, t, op, h, false, 1) }));
+        joins.push(std::thread::spawn(move || {
+            b.fetch_add(1, Ordering::SeqCst);
+            while b.load(Ordering::SeqCst) < nthreads { std::hint::spin_loop(); }
+            worker(sh2, t, op, h, false, 1)
+        }));
     }
     let joined: Vec<_> = joins.into_iter().map(|j| j.join().unwrap()).collect();
     finish(sink, p, joined, st, false);
@@ -343,6 +380,23 @@ pub fn programs() -> Vec<(&'static str, Program, usize)> {
         ("poll|set|set", Program { init: 1, ops: vec![pl(false), COp::Set(5), COp::Set(6)], extra_clones: 0 }, 0),
         ("poll|drop|drop", Program { init: 1, ops: vec![pl(false), COp::Drop, COp::Drop], extra_clones: 0 }, 0),
         ("pollf|get|set", Program { init: 1, ops: vec![pl(true), COp::Get, COp::Set(7)], extra_clones: 1 }, 0),
+    ]
+}
+
+/// programs for the free-running rounds only: races that have no pause point inside, calls the ledger does not model
+pub fn free_programs() -> Vec<(&'static str, Program)> {
+    let pl = |fresh| COp::Poll { fresh };
+    vec![
+        ("drop|drop", Program { init: 1, ops: vec![COp::Drop, COp::Drop], extra_clones: 0 }),
+        ("drop|drop|drop", Program { init: 1, ops: vec![COp::Drop, COp::Drop, COp::Drop], extra_clones: 0 }),
+        ("poll|droplast.free", Program { init: 1, ops: vec![pl(false), COp::Drop], extra_clones: 0 }),
+        ("poll|poll|droplast", Program { init: 1, ops: vec![pl(false), pl(false), COp::Drop], extra_clones: 0 }),
+        ("nextnow|set", Program { init: 1, ops: vec![COp::NextNow, COp::Set(5)], extra_clones: 0 }),
+        ("nextnow|set|set", Program { init: 1, ops: vec![COp::NextNow, COp::Set(5), COp::Set(6)], extra_clones: 0 }),
+        ("sne|sne", Program { init: 1, ops: vec![COp::Sne(7), COp::Sne(7)], extra_clones: 0 }),
+        ("sne|sne|sne", Program { init: 1, ops: vec![COp::Sne(7), COp::Sne(7), COp::Sne(7)], extra_clones: 0 }),
+        ("sne|set|poll", Program { init: 1, ops: vec![COp::Sne(7), COp::Set(7), pl(false)], extra_clones: 0 }),
+        ("pollf|set|set.free", Program { init: 1, ops: vec![pl(true), COp::Set(5), COp::Set(6)], extra_clones: 0 }),
     ]
 }
 
@@ -371,11 +425,12 @@ pub fn run(args: &Args, sink: &mut Sink) {
     sink.stat_n("forced", n);
     set_pause_hook(None);
     // free-running rounds
-    let rounds = if thorough { 3000 } else { 300 };
-    let progs = programs();
-    for k in 0..rounds {
-        let (name, p, _) = &progs[k % progs.len()];
-        run_free(sink, &format!("X{k}:{name}"), p);
+    let per = if thorough { 20000 } else { 600 };
+    let mut progs: Vec<(&'static str, Program)> = programs().into_iter().map(|(n, p, _)| (n, p)).collect();
+    progs.extend(free_programs());
+    let mut k = 0u64;
+    for (name, p) in &progs {
+        for _ in 0..per { k += 1; run_free(sink, &format!("X{k}:{name}"), p); }
     }
-    sink.stat_n("free", rounds as u64);
+    sink.stat_n("free", k);
 }
